@@ -50,29 +50,60 @@ PROP = {
         "(Go 1.23), time.Format for the layouts of writeObject and String(), tuesday.Strftime v1.0.3 (regexp, conversions, flags, widths, "
         "fmt's %d padding) and values.ParseDate on the five all-digit layouts, with time.Local = UTC: the harness sets time.Local = time.UTC "
         "at start-up and check runs it under TZ=UTC; checked by the filter stream on every run (and by robust, render, determ on whole templates)",
-        "date / times outside the model (counted as unmodelled): a string receiver that is not one of the five all-digit layouts "
-        "(the other 20 layouts of ParseDate, and `now`, which reads the clock), instants beyond +-2^62 seconds (Go's int64/uint64 "
-        "arithmetic wraps near the ends of the range), strftime widths above 1024 (from 10 000 010 on fmt prints %!(NOVERB)), "
-        "fmt.Sprint of a time below an unexported struct field (a drop inside a container: printed as the struct {wall ext loc})",
+        "date / times outside the model (counted as unmodelled): a string receiver that is neither one of the five all-digit layouts nor "
+        "rejected by every layout at its first field (the other 20 layouts of ParseDate, and `now`, which reads the clock), instants beyond "
+        "+-2^62 seconds (Go's int64/uint64 arithmetic wraps near the ends of the range), strftime widths above 1024 (from 10 000 010 on fmt "
+        "prints %!(NOVERB)), fmt.Sprint of a time below an unexported struct field (a drop inside a container: printed as the struct {wall ext loc})",
     ],
 }
 
 TEXT = {
-    "text": "Theorems over all rationals/integers: plus/minus/times are the exact sum/difference/product whenever that is a float64 "
-            "(and its IEEE rounding in general); divided_by is truncated integer division of the truncated receiver for every integer "
-            "kind of divisor and real division for a float divisor; a zero divisor of divided_by or modulo is the error 'division by "
-            "zero' end to end through ApplyFilter/Call; modulo is a - b*trunc(a/b) with the sign of the dividend and |r| < |b|; abs; "
-            "ceil/floor return ints n with n <= x < n+1 / n-1 < x <= n; round is floor(x*10^p + 1/2)/10^p with error at most half a unit "
-            "of the last place; plus-then-minus and times-then-divided_by are the identity; a string receiver that spells a number "
-            "behaves as that number and any other string (receiver or operand) is a TypeError; a whole float below 10^21 is printed "
-            "as plain digits. Times (Proofs.DateFilter): day number <-> civil date are inverse to each other on all integers / all valid "
-            "proleptic Gregorian dates, with month, day, clock, weekday, day-of-year and ISO-week fields in range; date never panics and Strftime never errs; "
-            "t | date: f is Strftime(f, t), without an argument f is '%a, %b %d, %y'; '%Y-%m-%d' of a year 0..9999 is dddd-dd-dd spelling "
-            "year, month, day, and '%Y-%m-%d %H:%M:%S' is read back by ParseDate as the instant itself and is what {{ t }} prints "
-            "before ' +0000', and a dddd-dd-dd string ParseDate accepts is printed back unchanged by '%Y-%m-%d'; '%j' is the day of the year, 1..366; '%s' is the unix time (read back by ParseInt); '%%' is '%'. An independent big.Rat oracle checks exactness, required errors and plain printing on the real code "
-            "for all universe pairs and random pipelines; the model is compared with the real code on every case.",
+    "text": "Theorems about the filter bodies on float64 arguments holding arbitrary rationals a, b (no bounds): plus/minus are the "
+            "exact sum/difference whenever that is a float64 (plus_spec, minus_spec) and its IEEE rounding otherwise (plus_rounds, "
+            "minus_rounds); times is the exact product whenever that is a float64 and not Go's -0 (times_spec; no rounding theorem "
+            "for times); divided_by with a non-zero integer divisor of any integer kind is the truncated quotient of the truncated "
+            "receiver when that truncation fits int64 (divided_by_int, with the wrap of MinInt64 / -1; divided_by_int_exact), with "
+            "a non-zero float divisor the exact quotient when that is a float64 and not -0 (divided_by_flt) or its non-zero IEEE "
+            "rounding (divided_by_flt_rounds); a zero divisor makes the body of divided_by (integer zero of any kind, or float zero) "
+            "and of modulo (float zero) return 'division by zero' for every receiver (divided_by_zero_err, modulo_zero_err), and "
+            "end to end through applyFilter an integer or float zero does so for a float receiver of either width "
+            "(divided_by_zero_filter, modulo_zero_filter; a numeric string receiver through numeric_string_recv; integer receivers "
+            "by the numf/filter streams only); modulo is a - b*trunc(a/b) "
+            "when that is a float64 and not -0 (modulo_spec), and that remainder has the sign of the dividend and |r| < |b| "
+            "(modulo_sign); abs (abs_spec); floor/ceil return Go ints n with n <= x < n+1 / n-1 < x <= n when n fits int64 "
+            "(floor_spec, ceil_spec); round: p for 0 <= p <= 22 (and without argument) returns floor(x*10^p + 1/2)/10^p whenever "
+            "x*10^p, x*10^p + 1/2 and that value are all exactly float64 (round_spec, round_default), and this ideal value is within "
+            "half a unit of the p-th place of x (round_err, about the ideal value, not about the filter) - for other p and inexact "
+            "intermediates only the step-wise rounded model is compared with the code; plus b then minus b, and times b then "
+            "divided_by float b (b != 0), give a back whenever a and the intermediate a+b / a*b are float64 (and not -0) (plus_minus, "
+            "times_div: each a pair of single-filter equations); for all nine filters a string receiver that spells a decimal number "
+            "behaves as the float64 nearest to it (numeric_string_recv, not for a spelling of -0) and a string receiver that does "
+            "not is a TypeError or, with too many arguments, the arity FilterError (non_numeric_err); a non-numeric string operand "
+            "of plus/minus/times/modulo with a float receiver is a TypeError (non_numeric_operand_err), while ANY non-number divisor "
+            "of divided_by - also the string \"3\" - is the FilterError 'invalid divisor' (divided_by_non_number); a whole float "
+            "below 10^21, whenever {{ x }} prints it, is printed as plain digits (whole_prints_int, whole_prints_no_point). Times "
+            "(Proofs.DateFilter; a time binding is time.Unix(u, 0).UTC(), the statements are about that model): day number -> civil date "
+            "-> day number is the identity on all integers and civil date -> day number -> civil date on every valid proleptic Gregorian "
+            "date (cal_days_civil_days, cal_civil_days_civil); month, day, hour, minute, second, weekday, day of the year and ISO week "
+            "of every instant are in range and date and clock determine the instant (cal_civil_ranges, cal_instant_fields, "
+            "cal_yearday_isoweek_range); x | date never panics for any receiver and arguments, nor do {{ t }}, fmt.Sprint(t) and the "
+            "conversions between times and strings (date_filter_noPanic, time_values_noPanic), and the model of Strftime returns a text "
+            "or the unmodelled marker, never an error (strftime_ok_or_unmodelled); for an instant within +-2^62 s and a string format, "
+            "t | date: f is Strftime(f, t) (date_filter_eq) and t | date is t | date: '%a, %b %d, %y' (date_default_format); for an "
+            "instant in the years 0..9999 '%Y-%m-%d' prints dddd-dd-dd whose digits spell year, month and day and which ParseDate reads as "
+            "the midnight of that day (strftime_ymd_shape), '%Y-%m-%d %H:%M:%S' prints 19 bytes that ParseDate reads back as the instant "
+            "(strftime_dateTime_parse) and that {{ t }} prints before ' +0000' (writeObject_time_eq_strftime); a ten-byte string that "
+            "ParseDate accepts is printed back unchanged by '%Y-%m-%d' (parse_then_strftime_ymd); '%j' is the day of the year, 1..366 "
+            "(strftime_yday); '%s' is fmt's %02d of the unix time, equal to its decimal text outside 0..9 and read back by ParseInt "
+            "(strftime_unix); '%%' is '%' (strftime_percent). An "
+            "independent big.Rat oracle checks exactness, required errors and plain printing on the real code for all universe pairs "
+            "and random pipelines wherever operands, intermediates and result are exactly float64 (round: 0 <= p <= 22 only; no "
+            "expectation otherwise); the model is compared with the real code on every case.",
     "design_ref": "DESIGN.md 6 C17",
-    "note": NOTE + "Defects found and repaired: modulo by zero printed NaN (D17), divided_by rejected uint/uint64 divisors (D14), whole "
+    "note": NOTE + "Every exactness theorem carries a Representable hypothesis (the exact result is a float64), the integer results an "
+            "int64-range hypothesis, and results Go signs -0 are excluded; round is characterised only for 0 <= p <= 22 with exact "
+            "intermediates; times has no general rounding theorem; the end-to-end zero-divisor theorems fix a float receiver. "
+            "Defects found and repaired: modulo by zero printed NaN (D17), divided_by rejected uint/uint64 divisors (D14), whole "
             "results from 10^6 on were printed in exponent form such as 1.234567e+06 (D23, fmt %v switches at exponent 6, not 21).",
     "technique": "Lean 4 proof (exact rational arithmetic with an explicit float64 rounding function) + model/implementation "
                  "correspondence + independent exact-arithmetic oracle on the implementation",
